@@ -33,7 +33,10 @@ RULE = ("Hypothesis draws a sample (1..4 atoms: natural elements, isotopes, ions
         "exposure, rest times, abundance function change); after each, decay_time for two targets relative to A(0), "
         "for the absolute targets of the previous step, and after a first question for 10 A(0), must equal the answer "
         "of a never-questioned fresh Sample given the same call and satisfy the oracle; the rest-time list and the "
-        "shared ActivationEnvironment must be unchanged. families (deterministic, complete): every daughter name that "
+        "shared ActivationEnvironment must be unchanged. multi: 2..4 drawn samples are all calculated before any question; "
+        "then all are asked the same bit-identical absolute targets (1..2 drawn in 1e-9..1e3 uCi or 5e-4, and k*A(0) of each "
+        "sample asked of every sample) in a drawn interleaved order; each answer is judged by that sample's truth and must "
+        "equal the answer of a fresh Sample calculated and asked alone afterwards. families (deterministic, complete): every daughter name that "
         "activation.dat (independent reader) lists under two parent elements x both parents in one formula (both "
         "orders; atom ratios 1:1, 30:1, 1:30) x a thermal-only and a fast-dominated beam x targets = the true total "
         "activity at 0.5, 3, 8 of each half-life tabulated for that daughter plus 1e-6..0.9 of A(0); same oracle.")
@@ -423,6 +426,84 @@ def task_families(ctx, part, parts):
         ctx.check(check_family, case)
 
 
+# ----------------------------------------------------------------------
+# several samples calculated first, then all of them questioned with the same absolute targets
+def multi_cases(E):
+    one = st.fixed_dictionaries(dict(atoms=c14.sample_atoms(E), env=st.one_of(bright_env(), bright_env(), any_env()),
+                                     rests=rest_list()))
+    return st.fixed_dictionaries(dict(
+        samples=st.lists(one, min_size=2, max_size=4),
+        absolute=st.lists(st.one_of(c14.logu(1e-9, 1e3), st.just(5e-4)), min_size=1, max_size=2),
+        ks=st.lists(target_factor(), min_size=1, max_size=2),
+        order=st.lists(st.integers(0, 10**6), min_size=16, max_size=16)))
+
+
+def check_multi(ctx, v):
+    """2-4 different samples are all calculated BEFORE any decay_time question; then every
+    sample is asked the same bit-identical absolute targets (drawn ones, and k*A(0) of every
+    sample asked of ALL samples) in a drawn interleaved order.  Each answer is judged by the
+    sample's own truth, and must equal the answer of a fresh Sample that is calculated and
+    questioned alone at the end."""
+    E = env()
+    case = dict(v, kind="multi")
+    specs = v["samples"]
+    samples = []
+    try:
+        for sp in specs:
+            formula = "".join(c14.atom_string(a, cnt) for a, cnt in sp["atoms"])
+            s = activate(E, formula, sp["env"], list(sp["rests"]))
+            base = activate(E, formula, sp["env"], [0.0])          # truth: activities at removal (never questioned)
+            samples.append(dict(formula=formula, s=s, base=base, env=sp["env"], rests=list(sp["rests"])))
+    except Exception:  # noqa  (C14's business)
+        ctx.count("skipped:activation-raises")
+        return
+    targets = [float(t) for t in v["absolute"]]
+    for smp in samples:
+        smp["products"] = [(vals[0], ai.Thalf_hrs) for ai, vals in smp["base"].activity.items()]
+        smp["zero"] = [a for a, T in smp["products"] if a <= 0]
+        smp["A0"] = ra.total_activity(smp["products"], 0.0) if smp["products"] else D(0)
+        if smp["A0"] > 0 and math.isfinite(float(smp["A0"])):
+            for k in v["ks"]:
+                t = float(smp["A0"] * D(k))
+                if t > 0 and math.isfinite(t):
+                    targets.append(t)
+    targets = sorted(set(targets))
+    ctx.case(("multi", tuple(x["formula"] for x in samples), repr([x["env"] for x in samples]), tuple(targets), tuple(v["order"])),
+             nontrivial=True, sample={"formulas": [x["formula"] for x in samples], "targets": targets},
+             cls=["multi:samples:%d" % len(samples), "multi:targets:%d" % len(targets)])
+    queries = [(i, t) for t in targets for i in range(len(samples))]
+    order = v["order"]
+    queries = [q for _, _, q in sorted((order[n % len(order)], n, q) for n, q in enumerate(queries))]
+    answers = {}
+    for i, target in queries:
+        smp = samples[i]
+        r = outcome(smp["s"], target)
+        answers[(i, target)] = r
+        ctx.count("multi:outcome:" + r[0])
+        if smp["products"] and smp["A0"] > 0:
+            k = float(D(target) / smp["A0"])
+            judge(dict(case, failing_sample=i, failing_target=target), smp["formula"], smp["env"], k, smp["products"], smp["A0"],
+                  target, relation_of(smp["A0"], target), smp["zero"], smp["rests"],
+                  cause(smp["products"], smp["rests"], smp["zero"]), r)
+        elif r != ("time", 0):
+            raise Violation("c15:no-activity", "%s has no activity but decay_time(%r) gave %r" % (smp["formula"], target, r), case)
+    # a fresh Sample, calculated and questioned alone
+    for i, smp in enumerate(samples):
+        fresh = activate(E, smp["formula"], smp["env"], list(smp["rests"]))
+        for target in targets:
+            r = outcome(fresh, target)
+            if not same_outcome(r, answers[(i, target)]):
+                raise Violation("c15:reuse:multi-sample-differs",
+                                "sample %d (%s) among %r: decay_time(%r) gave %r after all samples were calculated, a fresh "
+                                "sample questioned alone gives %r" % (i, smp["formula"], [x["formula"] for x in samples], target,
+                                                                      answers[(i, target)][1:], r[1:]), case)
+
+
+def task_multi(ctx, n):
+    E = env()
+    ctx.search("multi", multi_cases(E), check_multi, n)
+
+
 def task_search(ctx, n):
     E = env()
     ctx.search("decay", cases(E), check_case, n)
@@ -449,11 +530,13 @@ def tasks(tier):
     if tier == "quick":
         out = [("decay-%d" % i, task_search, dict(n=350)) for i in range(5)]
         out.append(("reuse", task_reuse, dict(n=200)))
+        out.append(("multi", task_multi, dict(n=150)))
         out += [("families-%d" % i, task_families, dict(part=i, parts=3)) for i in range(3)]
         out.append(("fixed", task_fixed, {}))
         return out
     out = [("decay-%02d" % i, task_search, dict(n=10000)) for i in range(13)]
     out += [("reuse-%d" % i, task_reuse, dict(n=4000)) for i in range(2)]
+    out += [("multi-%d" % i, task_multi, dict(n=3000)) for i in range(2)]
     out += [("families-%d" % i, task_families, dict(part=i, parts=2)) for i in range(2)]
     out.append(("fixed", task_fixed, {}))
     return out
@@ -462,6 +545,8 @@ def tasks(tier):
 def replay(ctx, case):
     if case.get("kind") == "reuse":
         check_reuse(ctx, case)
+    elif case.get("kind") == "multi":
+        check_multi(ctx, case)
     elif case.get("kind") == "family":
         check_family(ctx, case)
     else:
